@@ -213,6 +213,19 @@ def weight_function_positive(U, p, w, depth=5):
 
 
 @st.composite
+def flat_coordinate(draw, c):
+    """Vector-valued control points, one case in three: one coordinate is the same constant in every control point,
+    so that this coordinate alone is exactly representable with fewer knots / a lower degree while the others are
+    not - a removal or reduction is decided by the worst coordinate, never by the best one."""
+    P = c["P"]
+    if not P or not isinstance(P[0], list) or len(P[0]) < 2 or draw(st.integers(0, 2)) != 0:
+        return c
+    j = draw(st.integers(0, len(P[0]) - 1))
+    v = draw(st.sampled_from([F(0), F(1), P[0][j]]))
+    return dict(c, P=[[v if k == j else x for k, x in enumerate(pt)] for pt in P])
+
+
+@st.composite
 def unit_weight_function(draw, U, w, extra):
     """Weights are homogeneous: the same rational object with its weights divided by the value W(u*) of the weight
     function at one parameter u* that the caller evaluates (``params_of(U, extra)``), so that W(u*) is exactly 1
